@@ -89,6 +89,9 @@ def generate(rng, opts):
         # the user may own a branch that is named like the temporary one of any reference
         "collide_branch": rng.choice([False] * 6 + ["v1", rng.choice(refs_pool)]) if (refs_pool := all_tags + all_branches + ["HEAD", "main"]) else False,
         "detached": rng.random() < 0.2,
+        # directory names are the user's choice: they may look like a (normalised) reference
+        "repo_dirname": rng.choice(["repo", "repo", "repo", "main", "v1", "HEAD"]),
+        "user_worktree_dirname": rng.choice(["user-wt", "user-wt", "v1", "feature-x", "release-1-0", "dev", "main", "1-0-0"]),
         "dirty": rng.sample(["modified", "staged", "untracked", "ignored"], rng.choice([0, 0, 1, 2, 3])),
         "user_worktree": rng.choice([None, None, None, None, "live", "live", "live", "stale"]) if all_branches else None,
     }
@@ -152,7 +155,7 @@ def _env(date=None):
 
 
 def build_repo(root, world):
-    repo = os.path.join(root, "repo")
+    repo = os.path.join(root, world["state"].get("repo_dirname", "repo"))
     os.makedirs(repo)
     _git(repo, "init", "-q", "-b", "main")
     pkg_dir = os.path.join(repo, "src", "pkg") if world["layout"] == "src" else os.path.join(repo, "pkg")
@@ -186,7 +189,8 @@ def build_repo(root, world):
         _git(repo, "branch", f"griffe-{norm}", "HEAD~1", check=False)
     if st["user_worktree"]:
         branches = [b for c in world["commits"] for b in c["branches"]]
-        wt = os.path.join(root, "user-wt")
+        wt = os.path.join(root, "wts", st.get("user_worktree_dirname", "user-wt"))
+        os.makedirs(os.path.dirname(wt), exist_ok=True)
         _git(repo, "worktree", "add", "-q", wt, branches[0])
         if st["user_worktree"] == "stale":
             shutil.rmtree(wt)
@@ -628,7 +632,7 @@ def shrink_candidates(plan):
             yield {**plan, "ops": ops[:i] + [{**op, "api": "check"}] + ops[i + 1 :]}
     world = plan["world"]
     st = world["state"]
-    for key, simple in (("collide_branch", False), ("detached", False), ("user_worktree", None)):
+    for key, simple in (("collide_branch", False), ("detached", False), ("user_worktree", None), ("repo_dirname", "repo"), ("user_worktree_dirname", "user-wt")):
         if st[key] != simple:
             yield {**plan, "world": {**world, "state": {**st, key: simple}}}
     for red in core.list_reductions(st["dirty"]):
